@@ -31,7 +31,14 @@ Inductive op :=
 | OCall (sync : bool) (dl : Z)     (* Call / AsyncCall: makeCall with this deadline *)
 | ODispatch (r : resp)             (* Dispatch(pkt) *)
 | OSweep (now : Z)                 (* reapTimeout(now) *)
-| OReap.                           (* ReapTimeout() *)
+| OReap                            (* ReapTimeout() *)
+(* the same two in two phases: the context is stripped under the mutex (one atomic step); the
+   completion (RpcContext.run: notify + callback) happens later, outside the mutex, on the thread
+   that stripped it — so any other operation can land in between (another dispatcher, the reaper
+   goroutine's sweep, calls made by the callback itself) *)
+| OStrip (r : resp)                (* Dispatch: stripRpcContext only *)
+| OStripReap                       (* ReapTimeout: stripExpired only *)
+| ORun (k : nat).                  (* the k-th stripped, not yet completed context is completed *)
 
 (* one completion of a call: how = 0 the waiter was released with packet [krid] whose Errno is
    [kcode]; how = 1 the callback ran with code [kcode] and, when the code is 0, the decoded
@@ -42,6 +49,7 @@ Record st := mkst {
   counter : Z;                     (* uint16 *)
   pending : list (Z * ctx);        (* pendingCtx: seq -> ctx *)
   expired : list ctx;
+  inflight : list (ctx * resp);    (* stripped by a Dispatch / ReapTimeout in progress, completion still to run *)
   ncalls : Z                       (* ghost: calls made so far *)
 }.
 
@@ -52,7 +60,7 @@ Record out := mkout {
   ocomps : list comp
 }.
 
-Definition init (c0 : Z) : st := mkst c0 [] [] 0.
+Definition init (c0 : Z) : st := mkst c0 [] [] [] 0.
 
 Fixpoint lookup (k : Z) (l : list (Z * ctx)) : option ctx :=
   match l with
@@ -92,12 +100,12 @@ Definition errpkt (code : Z) : resp := mkresp 0 (-1) code false.
 (* makeCall once the sequence number is chosen *)
 Definition call_with (s : st) (sync : bool) (dl : Z) (seq : Z) : st * out :=
   let c := mkctx (ncalls s) sync dl in
-  (mkst seq ((seq, c) :: remove seq (pending s)) (expired s) (ncalls s + 1), mkout seq 0 []).
+  (mkst seq ((seq, c) :: remove seq (pending s)) (expired s) (inflight s) (ncalls s + 1), mkout seq 0 []).
 
 (* no free sequence number: the call is completed at once with ResourceExhausted *)
 Definition call_refused (s : st) (sync : bool) (dl : Z) : st * out :=
   let c := mkctx (ncalls s) sync dl in
-  (mkst (counter s) (pending s) (expired s) (ncalls s + 1),
+  (mkst (counter s) (pending s) (expired s) (inflight s) (ncalls s + 1),
    mkout 0 0 [complete c (errpkt codes_ResourceExhausted)]).
 
 Definition overdue (now : Z) (e : Z * ctx) : bool := cdl (snd e) <? now.   (* now.After(deadline) *)
@@ -111,18 +119,35 @@ Definition step (s : st) (o : op) : st * out :=
       end
   | ODispatch r =>
       match lookup (rseq r) (pending s) with
-      | Some c => (mkst (counter s) (remove (rseq r) (pending s)) (expired s) (ncalls s),
+      | Some c => (mkst (counter s) (remove (rseq r) (pending s)) (expired s) (inflight s) (ncalls s),
                    mkout 0 0 [complete c r])
       | None => (s, mkout 0 1 [])
       end
   | OSweep now =>
       (mkst (counter s) (filter (fun e => negb (overdue now e)) (pending s))
-            (expired s ++ map snd (filter (overdue now) (pending s))) (ncalls s),
+            (expired s ++ map snd (filter (overdue now) (pending s))) (inflight s) (ncalls s),
        mkout 0 0 [])
   | OReap =>
-      (mkst (counter s) (pending s) [] (ncalls s),
+      (mkst (counter s) (pending s) [] (inflight s) (ncalls s),
        mkout 0 (Z.of_nat (length (expired s)))
              (map (fun c => complete c (errpkt codes_RequestTimeout)) (expired s)))
+  | OStrip r =>
+      match lookup (rseq r) (pending s) with
+      | Some c => (mkst (counter s) (remove (rseq r) (pending s)) (expired s) (inflight s ++ [(c, r)]) (ncalls s),
+                   mkout 0 0 [])
+      | None => (s, mkout 0 1 [])
+      end
+  | OStripReap =>
+      (mkst (counter s) (pending s) []
+            (inflight s ++ map (fun c => (c, errpkt codes_RequestTimeout)) (expired s)) (ncalls s),
+       mkout 0 (Z.of_nat (length (expired s))) [])
+  | ORun k =>
+      match nth_error (inflight s) k with
+      | Some (c, r) => (mkst (counter s) (pending s) (expired s)
+                             (firstn k (inflight s) ++ skipn (S k) (inflight s)) (ncalls s),
+                        mkout 0 0 [complete c r])
+      | None => (s, mkout 0 1 [])
+      end
   end.
 
 Fixpoint run (s : st) (ops : list op) : st * list out :=
